@@ -20,7 +20,7 @@ outputs of the modelled sub-algorithms. Discharged clauses and their sources:
                      for SOME factor base / relations / kernel vectors / primality answers);
 * `qs64`          ← `UsesQs64`:         C11 `final_step_proper` + `divs.first()`, `(p, n / p)`;
 * `rho`           ← `UsesRho64`:        C16 `rho64_proper` (Model/ExpModn.lean `rho64`);
-* `pm1q`, `pm1`   ← `UsesPm1`:          C16 `check_gcd_factors_inv`, `gcd_factors_prod`,
+* `pm1q`, `pm1`   ← `UsesPm1`:          C16 `check_gcd_factors_inv`, `pm1_polyeval_inv`,
                      `pm1_result_proper` along `Pm1Reach` (states reachable by `pm1_impl`);
 * `ecmauto`, `ecm`, `ecm128` ← `UsesEcmExits`: C16 `guard_proper`, `check_gcd_factor_proper`;
 * `squfof`        ← `UsesSqufofExit`:   the two exits of squfof.rs (square; gcd with `p_prev`);
@@ -32,9 +32,6 @@ STILL ASSUMED:
 * inside `UsesSqufofExit`: the named fact `0 < p_prev < n` at the final gcd (premise of
   `SqufofExit.gcd`; squfof.rs guards `f > 1` only). `squfof_pprev_lt` derives it from
   `p_prev ≤ 2·isqrt(k·n)`, `k ≤ 50`, for every `n ≥ 201`;
-* inside `UsesPm1`: the premise `n ∉ f2` of `Pm1Reach.polyeval` — the stage-2 polynomial path
-  of `pm1_impl` (pollard_pm1.rs:356-365) appends the output of `gcd_factors` without the
-  `fs.contains(n)` guard, so "no listed part equals `n`" is not provided by the code there;
 * `prime` and `abort` stay arbitrary (no clause). -/
 theorem oracleOK_of_models (o : Oracle σ) (hpp : UsesPerfectPower o) (hfs : UsesFinalStep o)
     (hqs : UsesQs64 o) (hrho : UsesRho64 o) (hpm1 : UsesPm1 o) (hecm : UsesEcmExits o)
@@ -109,6 +106,23 @@ example : Pm1Reach 15 (fun _ => true) { factors := [3], nred := 5, vals := [1, 3
     subst this; exact dvd_rfl
   · have : i = 0 ∨ i = 1 := by omega
     rcases this with rfl | rfl <;> decide
+
+/-- the polynomial path of P-1 (C16 `pm1PolyStep`): a proper factor is recorded … -/
+example : Pm1Reach 15 (fun _ => true) { factors := [3], nred := 5, vals := [] } := by
+  refine Pm1Reach.polyeval { factors := [], nred := 15, vals := [1, 3] } _
+    (Pm1Reach.init [1, 3]) (by decide) ?_ (by decide +kernel)
+  intro i j hij hj
+  have : j = 0 ∨ j = 1 := by simp at hj; omega
+  rcases this with rfl | rfl
+  · have : i = 0 := by omega
+    subst this; exact dvd_rfl
+  · have : i = 0 ∨ i = 1 := by omega
+    rcases this with rfl | rfl <;> decide
+
+/-- … while the whole of `n` found in one step is refused (guard of the `fix:` 9b94f92; before
+it this was the state `([n], 1)` on which `factor_impl(n, Pm1)` recursed forever) -/
+example : Ymq.ExpModn.pm1PolyStep 15 (fun _ => false) { factors := [], nred := 15, vals := [1, 15] } =
+    some none := by decide +kernel
 
 example : EcmExit 15 3 5 := EcmExit.guard 3 (by decide)
 
